@@ -63,13 +63,13 @@ impl Generator {
     /// # Returns
     /// the mutated value, or the original if no mutation applied.
     pub(super) fn mutate_int(&self, value: i32, source: &mut GenerationSource) -> i32 {
+        #[cfg(feature = "verif-hooks")]
+        crate::verif::draw(crate::verif::ValueKind::Int, false);
         if self.mutators.is_empty() {
             return value;
         }
 
         let mut result = value;
-        #[cfg(feature = "verif-hooks")]
-        crate::verif::draw(crate::verif::ValueKind::Int, false);
         #[cfg(feature = "verif-hooks")]
         let mut verif_idx = 0usize;
         for mutator in &self.mutators {
@@ -104,14 +104,14 @@ impl Generator {
     /// # Returns
     /// the mutated value, or the original if no mutation applied.
     pub(super) fn _mutate_long(&self, value: i64, source: &mut GenerationSource) -> i64 {
+        #[cfg(feature = "verif-hooks")]
+        crate::verif::draw(crate::verif::ValueKind::Long, false);
         // unused right now, keeping around for completeness/future use
         if self.mutators.is_empty() {
             return value;
         }
 
         let mut result = value;
-        #[cfg(feature = "verif-hooks")]
-        crate::verif::draw(crate::verif::ValueKind::Long, false);
         #[cfg(feature = "verif-hooks")]
         let mut verif_idx = 0usize;
         for mutator in &self.mutators {
@@ -146,13 +146,13 @@ impl Generator {
     /// # Returns
     /// the mutated value, or the original if no mutation applied.
     pub(super) fn mutate_float(&self, value: f64, source: &mut GenerationSource) -> f64 {
+        #[cfg(feature = "verif-hooks")]
+        crate::verif::draw(crate::verif::ValueKind::Float, false);
         if self.mutators.is_empty() {
             return value;
         }
 
         let mut result = value;
-        #[cfg(feature = "verif-hooks")]
-        crate::verif::draw(crate::verif::ValueKind::Float, false);
         #[cfg(feature = "verif-hooks")]
         let mut verif_idx = 0usize;
         for mutator in &self.mutators {
@@ -188,13 +188,13 @@ impl Generator {
     /// # Returns
     /// the mutated string, or the original if no mutation applied.
     pub(super) fn mutate_string(&self, value: String, source: &mut GenerationSource) -> String {
+        #[cfg(feature = "verif-hooks")]
+        crate::verif::draw(crate::verif::ValueKind::String, value.is_empty());
         if self.mutators.is_empty() {
             return value;
         }
 
         let mut result = value;
-        #[cfg(feature = "verif-hooks")]
-        crate::verif::draw(crate::verif::ValueKind::String, result.is_empty());
         #[cfg(feature = "verif-hooks")]
         let mut verif_idx = 0usize;
         for mutator in &self.mutators {
@@ -231,13 +231,13 @@ impl Generator {
     /// # Returns
     /// the mutated bytes, or the original if no mutation applied.
     pub(super) fn mutate_bytes(&self, value: Vec<u8>, source: &mut GenerationSource) -> Vec<u8> {
+        #[cfg(feature = "verif-hooks")]
+        crate::verif::draw(crate::verif::ValueKind::Bytes, value.is_empty());
         if self.mutators.is_empty() {
             return value;
         }
 
         let mut result = value;
-        #[cfg(feature = "verif-hooks")]
-        crate::verif::draw(crate::verif::ValueKind::Bytes, result.is_empty());
         #[cfg(feature = "verif-hooks")]
         let mut verif_idx = 0usize;
         for mutator in &self.mutators {
@@ -274,13 +274,13 @@ impl Generator {
     /// # Returns
     /// the mutated index, or the original if no mutation applied.
     pub(super) fn mutate_memo_index(&self, index: usize, source: &mut GenerationSource) -> usize {
+        #[cfg(feature = "verif-hooks")]
+        crate::verif::draw(crate::verif::ValueKind::Memo, false);
         if self.mutators.is_empty() {
             return index;
         }
 
         let mut result = index;
-        #[cfg(feature = "verif-hooks")]
-        crate::verif::draw(crate::verif::ValueKind::Memo, false);
         #[cfg(feature = "verif-hooks")]
         let mut verif_idx = 0usize;
         for mutator in &self.mutators {
